@@ -40,6 +40,23 @@ const SPECS: &[Spec] = &[
     Spec { name: "blp1-raw1-a8-mip-16x16", w: 16, h: 16, mips: true, quick: false },
     Spec { name: "blp1-raw1-a0-16x4", w: 16, h: 4, mips: false, quick: false },
     Spec { name: "blp1-jpeg-noalpha-mip-16x4", w: 16, h: 4, mips: true, quick: false },
+    // has_mipmaps = 0 on the BLP2 direct decoders that had only mip-mapped seeds (parse_dxtn / parse_raw3 read image 0
+    // only: parser/direct/blp2.rs `if blp_header.has_mipmaps()` not taken)
+    Spec { name: "blp2-dxt1-nomip-8x8", w: 8, h: 8, mips: false, quick: false },
+    Spec { name: "blp2-dxt3-nomip-8x4", w: 8, h: 4, mips: false, quick: false },
+    Spec { name: "blp2-dxt5-nomip-4x8", w: 4, h: 8, mips: false, quick: false },
+    Spec { name: "blp2-raw3-nomip-8x4", w: 8, h: 4, mips: false, quick: false },
+    // the remaining alpha widths of the palettised decoder (parser/direct/blp1.rs: an = ceil(n * alpha_bits / 8))
+    Spec { name: "blp2-raw1-a0-mip-8x8", w: 8, h: 8, mips: true, quick: false },
+    Spec { name: "blp2-raw1-a4-mip-8x4", w: 8, h: 4, mips: true, quick: false },
+    Spec { name: "blp1-raw1-a1-mip-8x8", w: 8, h: 8, mips: true, quick: false },
+    Spec { name: "blp1-raw1-a4-8x4", w: 8, h: 4, mips: false, quick: false },
+    // DXT data shorter than the block count: mip 0 keeps 100 of its 128 bytes (12 whole blocks + 4 bytes), the last mip 4
+    // of its 8 bytes (0 whole blocks). encode_blp always writes whole mips, so the two size words are patched.
+    Spec { name: "blp2-dxt1-mip-16x16-short", w: 16, h: 16, mips: true, quick: false },
+    // content tag 7 (neither 0 = JPEG nor 1 = direct): parse_header falls back to JPEG. The writer only emits 0 / 1, so
+    // the tag word is patched.
+    Spec { name: "blp1-jpeg-content7-8x8", w: 8, h: 8, mips: true, quick: false },
 ];
 
 pub fn seed_names(thorough: bool) -> Vec<String> {
@@ -60,6 +77,15 @@ fn target(name: &str) -> BlpTarget {
         "blp1-raw1-a0-16x4" => BlpTarget::Blp1(BlpOldFormat::Raw1 { alpha_bits: AlphaBits::NoAlpha }),
         "blp1-jpeg-mip-8x8" => BlpTarget::Blp1(BlpOldFormat::Jpeg { has_alpha: true }),
         "blp1-jpeg-noalpha-mip-16x4" => BlpTarget::Blp1(BlpOldFormat::Jpeg { has_alpha: false }),
+        "blp2-dxt1-nomip-8x8" | "blp2-dxt1-mip-16x16-short" => BlpTarget::Blp2(Blp2Format::Dxt1 { has_alpha: false, compress_algorithm: alg }),
+        "blp2-dxt3-nomip-8x4" => BlpTarget::Blp2(Blp2Format::Dxt3 { has_alpha: true, compress_algorithm: alg }),
+        "blp2-dxt5-nomip-4x8" => BlpTarget::Blp2(Blp2Format::Dxt5 { has_alpha: true, compress_algorithm: alg }),
+        "blp2-raw3-nomip-8x4" => BlpTarget::Blp2(Blp2Format::Raw3),
+        "blp2-raw1-a0-mip-8x8" => BlpTarget::Blp2(Blp2Format::Raw1 { alpha_bits: AlphaBits::NoAlpha }),
+        "blp2-raw1-a4-mip-8x4" => BlpTarget::Blp2(Blp2Format::Raw1 { alpha_bits: AlphaBits::Bit4 }),
+        "blp1-raw1-a1-mip-8x8" => BlpTarget::Blp1(BlpOldFormat::Raw1 { alpha_bits: AlphaBits::Bit1 }),
+        "blp1-raw1-a4-8x4" => BlpTarget::Blp1(BlpOldFormat::Raw1 { alpha_bits: AlphaBits::Bit4 }),
+        "blp1-jpeg-content7-8x8" => BlpTarget::Blp1(BlpOldFormat::Jpeg { has_alpha: true }),
         _ => wverif_common::tool_error(&format!("blp: unknown seed {name}")),
     }
 }
@@ -92,7 +118,23 @@ pub fn build(name: &str) -> Seed {
     let spec = SPECS.iter().find(|s| s.name == name).unwrap_or_else(|| wverif_common::tool_error(&format!("blp: unknown seed {name}")));
     let img = wow_blp::convert::blp_to_image(&picture(spec.w, spec.h), 0).expect("blp: test picture");
     let blp = image_to_blp(img, spec.mips, target(name), FilterType::Nearest).expect("blp: image_to_blp");
-    let bytes = encode_blp(&blp).expect("blp: encode_blp");
+    let mut bytes = encode_blp(&blp).expect("blp: encode_blp");
+    let put32 = |b: &mut Vec<u8>, o: usize, v: u32| b[o..o + 4].copy_from_slice(&v.to_le_bytes());
+    // sizes the locator of a patched seed carries instead of the encoder's (mip index, size)
+    let mut short: Vec<(usize, u32)> = vec![];
+    match name {
+        "blp2-dxt1-mip-16x16-short" => {
+            let (_, sizes) = blp.header.internal_mipmaps().expect("blp: internal locator");
+            let last = sizes.iter().take_while(|&&z| z != 0).count() - 1;
+            assert_eq!((sizes[0], sizes[last]), (128, 8));
+            short = vec![(0, 100), (last, 4)];
+            for &(i, z) in &short {
+                put32(&mut bytes, 20 + 64 + 4 * i, z);
+            }
+        }
+        "blp1-jpeg-content7-8x8" => put32(&mut bytes, 4, 7),
+        _ => {}
+    }
     let mut s = Seed::new("blp", name, bytes);
     let len = s.bytes.len();
 
@@ -134,7 +176,8 @@ pub fn build(name: &str) -> Seed {
     for i in 0..used {
         let o = s.u32_at(loc + 4 * i);
         let z = s.u32_at(loc + 64 + 4 * i);
-        assert_eq!((o, z), (offsets[i], sizes[i]));
+        let want = short.iter().find(|p| p.0 == i).map(|p| p.1).unwrap_or(sizes[i]);
+        assert_eq!((o, z), (offsets[i], want));
         assert!(o as usize + z as usize <= len);
         s.field_ex(loc + 4 * i, 4, "offset", format!("mip[{i}].offset"), 0, 1, None);
         s.field_ex(loc + 64 + 4 * i, 4, "bsize", format!("mip[{i}].size"), o as usize, 1, None);
